@@ -5,7 +5,8 @@ from engine.rules import (calls, calls_named, every_path_passes, last_member, is
                           Summaries)
 from engine import witness
 
-UNITS = ['drivers/mutexes.cpp', 'src/tbb/queuing_rw_mutex.cpp', 'src/tbb/rtm_mutex.cpp', 'src/tbb/rtm_rw_mutex.cpp']
+UNITS = ['drivers/mutexes.cpp', 'src/tbb/queuing_rw_mutex.cpp', 'src/tbb/rtm_mutex.cpp', 'src/tbb/rtm_rw_mutex.cpp',
+         'src/tbb/address_waiter.cpp']
 D1N = 'tbb::detail::d1::'
 R1 = 'tbb::detail::r1::'
 QRW = R1 + 'queuing_rw_mutex_impl::'
@@ -39,6 +40,39 @@ def run(facts, rep):
     d4_upgrade(facts, rep)
     d5_raii(facts, rep)
     d6_queue(facts, rep)
+    d7_sleepers(facts, rep)
+
+
+def d7_sleepers(facts, rep):
+    """tbb::mutex / rw_mutex park blocked acquirers in a table of monitors indexed by a hash of the mutex address (several
+    objects share one monitor).  "No lost grant": a release finds the sleepers of ITS object among all the nodes of the shared
+    wait set - every scan of the wait set covers all nodes (start and step agree), the waiter and all three notifiers pick the
+    monitor with the same function of the address, and every notifier's predicate compares the sleeper's address with the
+    notified address."""
+    from rules.C02 import d1_scan_direction
+    d1_scan_direction(facts, rep, clause='D7')
+    pick = {}
+    for name in ('wait_on_address', 'notify_by_address', 'notify_by_address_one', 'notify_by_address_all'):
+        for fn in facts.get(R1 + name):
+            cs = calls_named(fn, ('get_address_waiter',))
+            params = set(nd.get('v') for nd in fn.nodes if nd.get('k') == 'var' and nd.get('param') == 0)
+            ok = len(cs) == 1 and cs[0][2].get('a') and fn.n(fn.strip(cs[0][2]['a'][0])).get('v') in params
+            rep.ob('D7', 'K10', fn, '%s picks the monitor from the address it was given' % name, bool(ok),
+                   'waiter and notifier can end up in different monitors', key_extra=name)
+            if name == 'wait_on_address':
+                continue
+            lam = [facts.fns.get(nd.get('fn')) for nd in fn.nodes if nd.get('k') == 'lambda']
+            lam = [g for g in lam if g is not None]
+            good = False
+            for g in lam:
+                for nd in g.nodes:
+                    if nd.get('k') == 'binop' and nd.get('op') == '==':
+                        sides = [last_member(g, nd['l']), last_member(g, nd['r'])]
+                        if 'my_address' in sides:
+                            good = True
+            rep.ob('D7', 'K10', fn, 'the predicate of %s selects the sleepers of the notified address' % name, good,
+                   'sleepers of another object that shares the monitor are woken instead / as well, or nobody is', key_extra=name + '|pred')
+    rep.floor('D7', 10, 'sleeper table')
 
 
 def witnesses(rep, tier):
